@@ -47,6 +47,7 @@ class Ctx(object):
         self.violations = []        # (signature, replay path)
         self.kf_hits = {}
         self.extra = []
+        self.elsewhere = {}         # (owners, what) -> [count, example event, occurrences]
         self.ev = {'states': 0, 'transitions': 0, 'traces_validated_against_impl': 0, 'samples': [],
                    'mc_runs': [], 'facts_judged_by_tlc': 0, 'facts_offered_by_drivers': 0,
                    'rejected_facts': 0, 'configurations': [c.describe() for c in self.cfgs],
@@ -68,10 +69,21 @@ class Ctx(object):
                 return c
         return None
 
-    def classify(self, event, occurrences, extra=None):
+    def classify(self, event, occurrences, extra=None, owners=None):
         """A rejected event.  occurrences: [(cfgname, provenance-string)].
-        Each occurrence either matches an open known finding or is a violation."""
+        Each occurrence either matches an open known finding or is a violation.
+        owners: the properties the rejected event speaks about, where the machinery that produced it exercises more
+        than the property being checked (the composed machine runs operations of many properties; every driver
+        observes the floating-point environment).  An event owned by other properties only is reported as an
+        ELSEWHERE line - the check of its owner gives the verdict - and is not an alarm of this check."""
         self.ev['rejected_facts'] += 1
+        if owners is None and event.get('o') == 'env':
+            owners = ('C11',)
+        if owners is not None and self.prop not in owners:
+            key = (tuple(sorted(owners)), str(event.get('e') or event.get('o')) + '/' + str(event.get('o') or event.get('op') or ''))
+            d = self.elsewhere.setdefault(key, [0, event, occurrences[:2]])
+            d[0] += 1
+            return
         if event.get('x') == 1:
             # behaviour the specification covers beyond the listed properties: reported, never a verdict
             self.extra.append((event, occurrences[:2]))
@@ -141,6 +153,9 @@ class Ctx(object):
         for (what, unit), (cnt, ev, occ) in sorted(groups.items())[:12]:
             print('EXTRA: (beyond property %s, not a verdict) %d deviating %s event(s) on %s, e.g. %s at %s' % (
                 self.prop, cnt, what, unit, brief(ev)[:260], occ[:1]))
+        for (owners, what), (cnt, ev, occ) in sorted(self.elsewhere.items())[:12]:
+            print('ELSEWHERE: (not a verdict of %s) %d rejected %s event(s) speak about %s and are decided by that check, e.g. %s at %s' % (
+                self.prop, cnt, what, '/'.join(owners), brief(ev)[:200], occ[:1]))
         for v in self.violations:
             print('VIOLATION property=%s replay=%s' % (self.prop, v['path']))
             print('  %d rejected event(s) like %s at %s' % (v['count'], brief(v['event']), v['occ'][:3]))
@@ -151,6 +166,7 @@ class Ctx(object):
             cov['samples'] = ['(no events)']
         cov['known_findings_matched'] = {k: d['n'] for k, d in self.kf_hits.items()}
         cov['extra_deviations_beyond_the_property'] = len(self.extra)
+        cov['rejected_events_owned_by_other_properties'] = sum(d[0] for d in self.elsewhere.values())
         cov['states'] = max(1, cov['states'])
         cov['transitions'] = max(1, cov['transitions'])
         evd = {'property_id': self.prop, 'tier': self.tier, 'seed': self.seed, 'level': level,
@@ -172,7 +188,7 @@ class Ctx(object):
 # ----------------------------------------------------------------------
 # generic lane-fact check
 # ----------------------------------------------------------------------
-def lane_facts(ctx, source, family, groups, cfg_filter=None, extra_defs=(), args_extra=(), module='TraceFacts', env_extra=None, cfgs=None, run_env=None, exec_prefix=None):
+def lane_facts(ctx, source, family, groups, cfg_filter=None, extra_defs=(), args_extra=(), module='TraceFacts', env_extra=None, cfgs=None, run_env=None, exec_prefix=None, only=None):
     """Build <source> for every configuration x group, run family, TLC-judge the
     distinct facts, classify rejections.  Returns number of facts judged."""
     if cfgs is None:
@@ -203,6 +219,7 @@ def lane_facts(ctx, source, family, groups, cfg_filter=None, extra_defs=(), args
     total_judged = 0
     for g in groups:
         m = facts.Merged()
+        m.keep = only               # (C11: the environment facts of the integer drivers)
         for c in cfgs:
             tag = '%s/%s' % (c.name, g)
             m.add_file(tag, results[tag])
@@ -243,7 +260,7 @@ def lane_facts(ctx, source, family, groups, cfg_filter=None, extra_defs=(), args
 # ----------------------------------------------------------------------
 # ordered traces (register programs, histories): one file per (config, unit)
 # ----------------------------------------------------------------------
-def ordered_traces(ctx, source, family, groups, module, suffix, cfg_filter=None, extra_defs=(), libs=(), extra=(), cfgs=None, cfg_for=None):
+def ordered_traces(ctx, source, family, groups, module, suffix, cfg_filter=None, extra_defs=(), libs=(), extra=(), cfgs=None, cfg_for=None, owners_fn=None):
     """Build and run <source>; the driver writes <prefix>.<unit><suffix> ndjson traces.
     Byte-identical traces (same program, same observations) are validated once.
     Returns number of distinct traces validated."""
@@ -286,10 +303,27 @@ def ordered_traces(ctx, source, family, groups, module, suffix, cfg_filter=None,
         if rej:
             with open(path) as f:
                 lines = f.read().split('\n')
+            envbad = set()
+            if owners_fn:
+                # the rounding mode as the specification has it at every line (SetEnv, and Force after a rejection):
+                # an event that reports another mode is (also) about C11
+                env = 'RN'
+                for i, ln in enumerate(lines, 1):
+                    if not ln.strip():
+                        continue
+                    e = json.loads(ln)
+                    if e.get('e') == 'setenv':
+                        env = e.get('m')
+                    elif 'rm' in e and e['rm'] != env:
+                        envbad.add(i)
+                        env = e['rm']
             for r in rej:
                 ev = json.loads(lines[r - 1])
                 occ = [(t, '%s:%d:trace' % (u, r)) for t, u, _ in members]
-                ctx.classify(ev, occ)
+                own = owners_fn(ev) if owners_fn else None
+                if own is not None and r in envbad:
+                    own = tuple(own) + ('C11',)
+                ctx.classify(ev, occ, owners=own)
         else:
             ctx.ev['traces_validated_against_impl'] += len(members)
         if len(ctx.ev['samples']) < 12:
